@@ -136,6 +136,8 @@ def run(tier):
     common.write_ndjson(tp, lines)
     nok, bad, r = judge.judge_trace("ResTrace.tla", "ResTrace.cfg", tp, o, "resource observation judge")
     seen = set()
+    o.extra["observations_that_differ_from_the_exact_model_counts_(notes)"] = sum(1 for b in bad if b["clause"].startswith("note:"))
+    bad = [b for b in bad if not b["clause"].startswith("note:")]
     for b in bad:
         sig = "res/%s" % b["clause"]
         if sig in seen:
